@@ -42,6 +42,7 @@ def families(tier):
         {'name': 'N3', 'params': {'hist': 'BB', 'universe': UN3, 'kinds': ['is_dir'], 'roles': ['o'],
                                   'bf_modes': ['ok', 'raise_after']}, 'weight': 3},
         {'name': 'S1', 'params': {'hist': 'BB'}, 'weight': 1},
+        {'name': 'B10', 'params': {'hist': 'BMB', 'universe': ['o', 'o/d', 'o/d/z'], 'mut_paths': ['o/d/z', 'o/d'], 'mut_kinds': ['none', 'delete', 'rmtree']}, 'weight': 1},
         {'name': 'A5c', 'params': {'hist': 'BB', 'laws_only': True}, 'weight': 1},
         {'name': 'A5d', 'params': {'hist': 'BB', 'laws_only': True}, 'weight': 1},
     ]
@@ -76,6 +77,8 @@ def programs(eng, fam, P):
         return skeleton(eng, 'N3', P), ['o/w', 'o/m/x', 'o/d/g']
     if fam in ('A5c', 'A5d'):
         return skeleton(eng, fam, dict(P, kinds=['is_dir'], modes=['ok', 'raise_after'])), ['o/d', 'o/d/g']
+    if fam in ('B9', 'B10'):
+        return skeleton(eng, fam, dict(P, kinds=['is_dir'])), ['o/d/g', 'o/d/h', 'o/d/p/x', 'o/d/q/y']
     if fam == 'S1':
         # within one build: a (failing, caught) build_file on a path that a later build_file uses as a directory
         return skeleton(eng, 'S1', P), ['o/d', 'o/d/g']
